@@ -52,6 +52,7 @@ fn main() {
         }
         Some("smoke") => props::smoke(),
         Some("golden-gen") => props::c10::generate(),
+        Some("crash-suite") => props::crash_suite_cmd(&args[2], args[3].parse().unwrap_or(3), args.get(4).and_then(|s| s.parse().ok()).unwrap_or(60.0)),
         Some("c09-worker") => props::c09::worker(&args[2..]),
         Some("sched-prog") => props::sched_prog(&args[2], args[3].parse().unwrap_or(1), args.get(4).and_then(|s| s.parse().ok()).unwrap_or(120.0)),
         Some("c20-inner") => props::c20::inner(&args[2..]),
